@@ -20,6 +20,7 @@ import (
 	"github.com/modernizing/coca/pkg/application/evaluate"
 	"github.com/modernizing/coca/pkg/application/evaluate/evaluator"
 	"github.com/modernizing/coca/pkg/domain/core_domain"
+	"github.com/modernizing/coca/pkg/infrastructure/string_helper"
 
 	"verifharness/adapter/common"
 	"verifharness/gen/evalgen"
@@ -60,10 +61,10 @@ var Check = &run.Check{
 	ID:    "C18",
 	Level: "exploration",
 	Rule: "case index mod 15 selects the sub-check. 0-9: synthetic call model (modelgen: random/dag/tree/chain/cycle/fan-in/mutual/dense graphs with repeated calls, self calls, calls without receiver type, " +
-		"calls to external and to undeclared methods of project classes, object creations, classes in the default package (empty package name); in every second model call records carry real-looking positions: one caller calls the SAME callee 2-3 times on ONE line at different columns, adjacent or with another call in between) -> count.BuildCallMap, every Nth through `coca count -d deps.json` twice (+ `-t k`). " +
-		"10-11: generated Java project (1-6 files, one class each: *Util/*Utils classes with static methods only, also named *ServiceUtil(s)/ServiceUtils/WebServiceUtil, *Service classes, ordinary and abstract classes; about one class in seven has no package line; methods with every subset of " +
+		"calls to external and to undeclared methods of project classes, object creations, classes in the default package (empty package name); in every second model call records carry real-looking positions: one caller calls the SAME callee 2-3 times on ONE line at different columns, adjacent or with another call in between) every third model gets CALLED case twins (method getUrl/getURL in one class, or class IoUtil/IOUtil with a method of the same name) with different counts) -> count.BuildCallMap, and string_helper.SortWord over it five times in one process (same rows, same order), every Nth through `coca count -d deps.json` twice (+ `-t k`). " +
+		"10-11: generated Java project (1-6 files, one class each: *Util/*Utils classes with static methods only, also named *ServiceUtil(s)/ServiceUtils/WebServiceUtil, *UtilImpl/*UtilsV2/*UtilsImpl/*UtilHelper and Util*, *Service classes, ordinary and abstract classes; about one class in seven has no package line; methods with every subset of " +
 		"{public|private|protected, static, final, synchronized} or {public|protected, abstract} in random order, annotations before or between the keywords; bodies returning null as the only/first/middle/last return " +
-		"statement, nested in for/while/try/switch/else; @Nullable/@CheckForNull as only/first/middle/last annotation or after a keyword; both annotations on one method; annotation plus return null; null returned on two paths; decoys: null outside return statements, @Nonnull, boolean `return p == null`; " +
+		"statement, nested in for/while/try/switch/else; @Nullable/@CheckForNull as only/first/middle/last annotation or after a keyword; both annotations on one method; annotation plus return null; null returned on two paths; the only null being the else / then / innermost else branch of a returned conditional expression (`return ok ? v : null;`), with a null-free conditional return as control; decoys: null outside return statements, @Nonnull, boolean `return p == null`; " +
 		"bodies start with unqualified calls of same-class methods, one per line or the same callee 2-3 times on one line) " +
 		"-> JavaIdentifierApp + JavaFullApp -> evaluate.Analyser.Analysis, every Nth through `coca analysis -p DIR` + `coca evaluate` (coca_reporter/evaluate.json); the analysed model of every project also goes through count.BuildCallMap / `coca count` and is compared with its own recorded call entries. " +
 		"12-14: classes whose method names are plain camel case over 40 ordinary words, 6 ordinary words that begin with get/set (setup, setback, settle, getaway, settings, getter; alone, first or later segment), 12 English function words and digit groups -> concept.ConceptAnalyser.Analysis, every Nth through `coca concept -d deps.json`. " +
@@ -72,8 +73,8 @@ var Check = &run.Check{
 	Assumptions: []string{
 		"every method full name is declared once (overloads are out of scope, DESIGN §7); class simple names are unique inside a project",
 		"generated classes have no constructors, no inner types, and there are no interfaces or enums: whether those count as methods/classes is not settled by the statement",
-		"a utility class is generated only in the unambiguous shape (name ends in Util/Utils, nothing but static methods); every other class has an instance method and no 'util' in its name",
-		"return expressions never contain an identifier or string with the letters 'null'; ternaries with a null branch are not generated",
+		"a utility class is generated only in the unambiguous shape (the name has the word Util/Utils as a camel-case segment - last, first or in the middle as in DateUtilImpl - and the class has nothing but static methods); every other class has an instance method and no 'util' in its name",
+		"return expressions never contain an identifier or string with the letters 'null'; a returned conditional expression has the null literal only as a whole branch and never in its condition (guards such as `p == null ? \"\" : p` are not generated: whether coca should list them is not what the statement settles)",
 		"for generated projects the expected reference counts are the call entries the full pass RECORDED (which receiver a call resolves to is C02's subject); the planted same-line calls are only counted to show that such entries occur",
 		"a class named *ServiceUtil(s) with nothing but static methods is a utility class under any reading; a *Service class without 'util' in its name is not",
 		"full names of default-package members are compared without the leading dot coca writes (.Greeter.greet == Greeter.greet): the statement only needs caller side and declaring side to agree",
@@ -162,6 +163,10 @@ func runModel(c *run.Ctx, o *run.Outcome, seq int) {
 	if seq%2 == 1 || seq < 20 {
 		sameLineGroups, sameLineSites = shareLines(r.Fork(), m)
 	}
+	twinPairs := 0
+	if seq%3 == 0 || seq < 20 {
+		twinPairs = plantCaseTwins(r.Fork(), m)
+	}
 	deps := common.ToCoca(m)
 	spreadColumns(deps)
 	want := oracle.EvalCallCounts(m)
@@ -198,6 +203,10 @@ func runModel(c *run.Ctx, o *run.Outcome, seq int) {
 	o.Count("model_call_sites_to_undeclared_names", toUndeclared)
 	o.Count("model_call_sites_without_receiver", noReceiver)
 	o.Count("model_object_creations", creations)
+	o.Count("model_called_case_twin_pairs", twinPairs)
+	if twinPairs > 0 {
+		o.Count("model_cases_with_called_case_twins", 1)
+	}
 	for _, cl := range m.Classes {
 		if cl.Pkg == "" {
 			o.Count("model_classes_in_default_package", 1)
@@ -239,13 +248,46 @@ func runModel(c *run.Ctx, o *run.Outcome, seq int) {
 		o.Violate(mm.Sig, "%s", mm.Msg)
 	}
 
+	// the listing as `coca count` builds it (SortWord over the count map), five times in this process: the same
+	// model has to come out as the same rows in the same order every time
+	var listings [][]oracle.EvalPair
+	panicked, val, site = run.Guard(func() {
+		for i := 0; i < 5; i++ {
+			var rows []oracle.EvalPair
+			for _, pr := range string_helper.SortWord(count.BuildCallMap(deps)) {
+				rows = append(rows, oracle.EvalPair{Key: pr.Key, Value: pr.Value})
+			}
+			listings = append(listings, rows)
+		}
+	})
+	if panicked {
+		o.Violate("panic@"+site, "SortWord(BuildCallMap) panicked: %s", val)
+		return
+	}
+	o.Count("model_in_process_listings", len(listings))
+	for _, mm := range oracle.EvalCheckCountListing(m, listings[0]) {
+		o.Violate("listing-"+mm.Sig, "SortWord(BuildCallMap): %s", mm.Msg)
+	}
+	for i := 1; i < len(listings); i++ {
+		if ms := oracle.EvalSameOrder(listings[0], listings[i]); len(ms) > 0 {
+			witness["listing_1"] = listings[0]
+			witness["listing_n"] = listings[i]
+			o.Violate(ms[0].Sig, "SortWord(BuildCallMap) listed %d times in one process: %s", len(listings), ms[0].Msg)
+			break
+		}
+	}
+
 	if c.CocaBin != "" && seq%cliEvery(c.Tier, "model") == 0 {
 		o.Count("cli_cases", 1)
 		o.Count("cli_count_cases", 1)
 		dir := c.Scratch()
 		common.WriteJSON(filepath.Join(dir, "deps.json"), deps)
 		var runs [][]oracle.EvalPair
-		for i := 0; i < 2; i++ {
+		nRuns := 2
+		if twinPairs > 0 {
+			nRuns = 4 // tied rows swap with probability 1/2 per run
+		}
+		for i := 0; i < nRuns; i++ {
 			rows, ok := runCount(c, o, dir, "count", "-d", "deps.json")
 			if !ok {
 				return
@@ -257,8 +299,11 @@ func runModel(c *run.Ctx, o *run.Outcome, seq int) {
 		for _, mm := range oracle.EvalCheckCountListing(m, runs[0]) {
 			o.Violate("cli-"+mm.Sig, "`coca count`: %s", mm.Msg)
 		}
-		for _, mm := range oracle.EvalSameOrder(runs[0], runs[1]) {
-			o.Violate(mm.Sig, "`coca count` twice on the same deps.json: %s", mm.Msg)
+		for i := 1; i < len(runs); i++ {
+			if ms := oracle.EvalSameOrder(runs[0], runs[i]); len(ms) > 0 {
+				o.Violate("cli-"+ms[0].Sig, "`coca count` %d times on the same deps.json: %s", len(runs), ms[0].Msg)
+				break
+			}
 		}
 		o.Count("cli_count_rows", len(runs[0]))
 		if len(runs[0]) >= 3 {
@@ -296,6 +341,103 @@ func runModel(c *run.Ctx, o *run.Outcome, seq int) {
 	if c.Index < 64 {
 		o.Sample = map[string]interface{}{"kind": "model", "model": m.Describe(), "expected_counts": want, "observed_counts": got}
 	}
+}
+
+// caseVariant changes the letter case of the last camel word of a name (getUrl -> getURL, saveLOAD -> saveload;
+// a single lower-case word gets its last letter capitalised): a different Java identifier that is equal after
+// case folding.
+func caseVariant(name string) string {
+	end := len(name)
+	for end > 0 && !isLetter(name[end-1]) {
+		end--
+	}
+	if end < 2 {
+		return name
+	}
+	j := end - 1
+	for k := end - 1; k >= 1 && isLetter(name[k]); k-- {
+		if name[k] >= 'A' && name[k] <= 'Z' {
+			j = k
+			break
+		}
+	}
+	tail := name[j:end]
+	if up := strings.ToUpper(tail); up != tail {
+		return name[:j] + up + name[end:]
+	}
+	return name[:j] + strings.ToLower(tail) + name[end:]
+}
+
+func isLetter(b byte) bool { return b >= 'a' && b <= 'z' || b >= 'A' && b <= 'Z' }
+
+// plantCaseTwins adds CALLED declarations whose full names differ only in letter case from another called
+// declaration: a method twin in the same class (getUrl / getURL) and sometimes a class twin (IoUtil / IOUtil)
+// with a method of the same name. The twins get a different number of call sites than the original where
+// possible. Returns the number of twin pairs in which both sides are called.
+func plantCaseTwins(r *run.Rand, m *modelgen.Model) int {
+	all := m.Methods()
+	declared := m.Declared()
+	counts := oracle.EvalCallCounts(m)
+	var called []*modelgen.Method
+	for _, me := range all {
+		if counts[me.Full()] > 0 {
+			called = append(called, me)
+		}
+	}
+	if len(called) == 0 {
+		return 0
+	}
+	line := 100000
+	callIt := func(t *modelgen.Method, n int) {
+		for ; n > 0; n-- {
+			from := all[r.Intn(len(all))]
+			line++
+			from.Calls = append(from.Calls, modelgen.CallRef{Pkg: t.Pkg, Class: t.Class, Name: t.Name, Line: line})
+		}
+	}
+	pairs := 0
+	for k := r.Range(1, 2); k > 0; k-- {
+		t := called[r.Intn(len(called))]
+		if r.Chance(1, 3) {
+			// class twin with a method of the same name
+			cn := caseVariant(t.Class)
+			if cn == t.Class {
+				continue
+			}
+			tw := &modelgen.Method{Pkg: t.Pkg, Class: cn, Name: t.Name}
+			if _, ok := declared[tw.Full()]; ok {
+				continue
+			}
+			exists := false
+			for _, cl := range m.Classes {
+				if cl.Pkg == t.Pkg && cl.Name == cn {
+					exists = true
+				}
+			}
+			if exists {
+				continue
+			}
+			m.Classes = append(m.Classes, &modelgen.Class{Pkg: t.Pkg, Name: cn, Methods: []*modelgen.Method{tw}})
+			declared[tw.Full()] = tw
+			callIt(tw, counts[t.Full()]+r.Range(1, 2))
+			pairs++
+			continue
+		}
+		tn := caseVariant(t.Name)
+		tw := &modelgen.Method{Pkg: t.Pkg, Class: t.Class, Name: tn}
+		if _, ok := declared[tw.Full()]; ok || tn == t.Name {
+			continue
+		}
+		for _, cl := range m.Classes {
+			if cl.Pkg == t.Pkg && cl.Name == t.Class {
+				cl.Methods = append(cl.Methods, tw)
+			}
+		}
+		declared[tw.Full()] = tw
+		callIt(tw, counts[t.Full()]+r.Range(1, 2))
+		pairs++
+	}
+	return pairs
 }
 
 // shareLines rewrites the positions of a synthetic model the way real sources look: one caller invokes the
